@@ -302,6 +302,19 @@ func (m *raftMonitor) onApply(a applyRec) {
 // instance, i.e. what would survive a crash at this instant), or be covered by
 // its snapshot.
 func (m *raftMonitor) onApplySync(n *simNode, group uuid.UUID, index uint64) {
+	defer func() {
+		// the read below is the monitor's own: if the database was closed under it (an
+		// incarnation on its way out), that says nothing about the system under test
+		if r := recover(); r != nil {
+			m.s.out.Stat("apply_time_reads_of_a_closed_database_skipped", 1)
+			if os.Getenv("VERIF_DEBUG") != "" {
+				fmt.Fprintf(realStderr, "onApplySync: n%d inc=%d alive=%v tag=%d group=%s index=%d: %v\n", n.idx, n.inc, n.alive, runtimeVerifGetTag(), shortG(group), index, r)
+			}
+		}
+	}()
+	if m.s.dbClosed[n.parts.DB] {
+		return
+	}
 	w := wal.NewBadgerWAL(n.parts.DB, group)
 	last, err := w.LastIndex()
 	if err != nil {
